@@ -237,10 +237,83 @@ def eval_guard(e, env):
     if k == 'bin':
         l, r = eval_guard(e_['l'], env), eval_guard(e_['r'], env)
         M = 2 ** 64 - 1
+        if e_['op'] in ('<<', '>>'):
+            if not (0 <= r < 64):
+                return 0
+            return (l << r) & M if e_['op'] == '<<' else l >> r
         return {'&': l & r, '|': l | r, '+': (l + r) & M, '-': (l - r) & M, '*': (l * r) & M, '<=': int(l <= r), '<': int(l < r), '>=': int(l >= r),
                 '>': int(l > r), '==': int(l == r), '!=': int(l != r), '>>': l >> r, '<<': (l << r) & M, '%': l % r if r else 0, '/': l // r if r else 0,
                 '&&': int(bool(l) and bool(r)), '||': int(bool(l) or bool(r))}[e_['op']]
     raise KeyError('expression %s' % show(e_))
+
+
+def clause_f(facts, rep):
+    """DoEscape reads a source byte only while the remaining count says one is left: every dereference of the
+    source cursor is dominated, since the cursor/count last moved, by a test that implies nb >= 1 (the entry state
+    counts: Quote calls DoEscape on the byte that needs escaping, so nb >= 1 there)."""
+    from ..e2_dom import Must
+    from ..narrowing import _eval as ev1
+    n = 0
+    for f in facts.functions:
+        if f.qn != NS + 'DoEscape':
+            continue
+        ps = {p_.get('name'): p_['id'] for p_ in f.params}
+        rep.require('src' in ps and 'nb' in ps, 'C09.f: DoEscape parameters src/nb not bound')
+        if 'src' not in ps or 'nb' not in ps:
+            continue
+        sid, nid = ps['src'], ps['nb']
+
+        def writes(s_):
+            out = set()
+            for y in walk(s_):
+                if y.get('k') == 'bin' and y['op'] in ('=', '+=', '-=') and strip(y['l']) is not None and strip(y['l']).get('k') == 'ref':
+                    out.add(strip(y['l'])['id'])
+                if y.get('k') == 'un' and y['op'] in ('++', '--') and strip(y['e']) is not None and strip(y['e']).get('k') == 'ref':
+                    out.add(strip(y['e'])['id'])
+            return out
+
+        def kill_stmt(st):
+            s_ = strip(st)
+            return ['avail'] if s_ is not None and (writes(s_) & {sid, nid}) else []
+
+        def gen_edge(b, cond, sense):
+            c = strip_expect(cond)
+            if c is None:
+                return []
+            ids = set(y.get('id') for y in walk(c) if y.get('k') == 'ref' and y.get('dk') in ('local', 'param'))
+            if ids != {nid}:
+                return []
+            cands = list(range(0, 70)) + [2 ** 64 - 1 - k for k in range(0, 4)] + [2 ** 63 - 1, 2 ** 63, 2 ** 63 + 1, 2 ** 32 - 1, 2 ** 32, 2 ** 31]
+            try:
+                sat = [v for v in cands if bool(ev1(c, {nid: v})) == sense]
+            except KeyError:
+                return []
+            return ['avail'] if all(v >= 1 for v in sat) else []
+        M = Must(f, gen_edge=gen_edge, kill_stmt=kill_stmt, entry=frozenset(['avail']))
+
+        def derefs(x):
+            for y in walk(x):
+                if y.get('k') == 'un' and y['op'] == '*' and any(z.get('k') == 'ref' and z.get('id') == sid for z in walk(y['e'])):
+                    yield y
+                if y.get('k') == 'sub' and any(z.get('k') == 'ref' and z.get('id') == sid for z in walk(y.get('base'))):
+                    yield y
+        for bid, B in f.blocks.items():
+            items = [(i, s) for i, s in enumerate(B['stmts'])]
+            t = B.get('term')
+            if t and t.get('cond') is not None:
+                items.append(('cond', t['cond']))
+            for i, s in items:
+                ds = list(derefs(s))
+                if not ds:
+                    continue
+                # a sub-expression also appears as its own earlier CFG element: only count outermost statements once
+                st = M.at(bid, i)
+                if st is None:
+                    continue
+                n += 1
+                rep.check('avail' in st, 'E2.escape-peek', f.qn, 'source byte read in %s' % show(strip(s) if isinstance(s, dict) else s)[:80], locline(ds[0]['loc']),
+                          'the source cursor may be dereferenced only while nb >= 1 is known since src/nb last moved (the byte after the string is not readable)', facts.config)
+    rep.require(n >= 2, 'C09.f: only %d source reads found in DoEscape' % n)
 
 
 def run(rep, tier):
@@ -251,8 +324,10 @@ def run(rep, tier):
         m = clause_a(facts, rep)
         clause_bc(facts, rep, m)
         clause_de(facts, rep, san)
+        clause_f(facts, rep)
     rep.trust('clang 14 front end and constant evaluator', 'vector load/store widths in sv/primitives.py', 'page size 4096 (the value of PAGE_SIZE in quote.inc.h)')
     rep.assumptions += [
         'decides the escape tables, the length bound and reserve formula, the tail guard over every (page offset, tail length) pair in both macro branches, bounce buffer size and tail mask',
+        'DoEscape never reads the source cursor without a remaining byte (entry contract: Quote calls it on a byte that needs escaping)',
         'does NOT decide that the bytes between the quotes are exactly the escaped input (loop bookkeeping of MOVE_N_CHARS / DoEscape is value level)',
     ]
